@@ -82,6 +82,7 @@ def units(tier):
     for dt in ("int32", "uint16"):
         yield {"leg": "limit", "dtype": dt}
     yield {"leg": "limit-cross"}
+    yield {"leg": "mixed-dtype"}
     yield {"leg": "cli"}
 
 
@@ -261,6 +262,45 @@ def _limit_cross(R, only):
                 scratch.rm(out)
 
 
+def _mixed(R, only):
+    """inputs whose value column has DIFFERENT dtypes (int32, int64, uint8, float32, float64 with fractional values), every ordered
+    pair and some triples, no explicit output dtype: the stored values must be the exact aggregates whatever the order"""
+    import cooler
+    bins = alpha.table_bins(fx.TABLE_F, "abc")
+    kinds = [("int32", 0), ("int64", 0), ("uint8", 0), ("float64", 0.25), ("float32", 0.5)]
+    R.add("states")
+    R.add("traces")
+    srcs = []
+    for q, (dt, frac) in enumerate(kinds):
+        pix = {(0, 1): {"count": 3 + q + frac}, (1, 1): {"count": 1 + frac}, (q % 4, 3): {"count": 7 + frac}}
+        srcs.append((fx.make(("c07mix", dt), bins, pix, cols=("count",), count_dtype=np.dtype(dt)), pix))
+    kk = 0
+    seqs = [list(s) for s in itertools.permutations(range(len(kinds)), 2)] + [[0, 3, 1], [3, 0, 4], [2, 4, 0], [4, 2, 3]]
+    for seq in seqs:
+        for buf in (1, 10 ** 6):
+            kk += 1
+            inner = {"dtypes": [kinds[q][0] for q in seq], "mergebuf": buf}
+            if only is not None and only != inner:
+                continue
+            R.order = (R.order[0], kk)
+            R.ev(1, 1)
+            R.add("transitions")
+            R.cls("mixed-dtype")
+            want = models.ref_merge([{k: v["count"] for k, v in srcs[q][1].items()} for q in seq])
+            out = scratch.fresh()
+            try:
+                try:
+                    cooler.merge_coolers(out, [srcs[q][0] for q in seq], mergebuf=buf)
+                except Exception as e:
+                    R.mismatch("merge-raises:" + type(e).__name__, inner, f"{e!s:.200}")
+                    continue
+                got, rd = fx.read(out)
+                if {k: v["count"] for k, v in got.items()} != want:
+                    R.mismatch("stored-value-silently-differs-from-aggregate", inner, f"got={got} want={want} dtype={rd['dtypes'].get('count')}")
+            finally:
+                scratch.rm(out)
+
+
 def _limit(R, dtname, only):
     import cooler
     dt = np.dtype(dtname)
@@ -345,6 +385,8 @@ def run(unit, R, tier, only=None):
         _limit(R, unit["dtype"], only)
     elif leg == "limit-cross":
         _limit_cross(R, only)
+    elif leg == "mixed-dtype":
+        _mixed(R, only)
     elif leg == "cli":
         _cli(R, only)
     else:
